@@ -1,6 +1,6 @@
 (* Instrumented Script execution (specification side, used by C13): the same semantics as
    Script/Exec.v, additionally returning the list of events of the executed path --
-   successful signature checks, hash computations, successful equality comparisons, DUPs and
+   successful signature checks, hash computations, equality comparisons and their outcome, DUPs and
    passed lock-time checks -- and [checks], which reads off that list the conditions the
    executed path verified:
      * a signature check      KSig key sig         (CHECKSIG / CHECKSIGVERIFY / CHECKSIGADD with a
@@ -20,6 +20,7 @@ Inductive event :=
 | TSig (k s : bytes)
 | THash (kd : ihk) (p d : bytes)      (* input, digest *)
 | TEq (v : bytes)                     (* EQUAL / EQUALVERIFY found both operands equal to v *)
+| TNeq                                (* EQUAL found its operands different (and pushed false) *)
 | TDup
 | TAbs (n : N)
 | TRel (n : N).
@@ -44,7 +45,7 @@ Definition op_events (e : env) (o : opcode) (st : state) : list event :=
   let s := stk st in
   match o with
   | OP_DUP => [TDup]
-  | OP_EQUAL => match s with x :: y :: _ => if bytes_eqb x y then [TEq x] else [] | _ => [] end
+  | OP_EQUAL => match s with x :: y :: _ => if bytes_eqb x y then [TEq x] else [TNeq] | _ => [] end
   | OP_EQUALVERIFY => match s with x :: _ => [TEq x] | _ => [] end
   | OP_RIPEMD160 => match s with v :: _ => [THash KRipemd160 v (e_ripemd160 e v)] | _ => [] end
   | OP_SHA256 => match s with v :: _ => [THash KSha256 v (e_sha256 e v)] | _ => [] end
@@ -144,7 +145,7 @@ Fixpoint checks (tr : list event) : list check :=
     | TSig k s => KSig k s :: checks rest
     | TAbs n => KAbs n :: checks rest
     | TRel n => KRel n :: checks rest
-    | TEq _ => checks rest
+    | TEq _ | TNeq => checks rest
     | TDup =>
       match rest with
       | THash kd p d :: TEq d' :: r2 =>
